@@ -87,9 +87,13 @@ def run(ctx):
     ctx.rule('LINKS', 'link checkers and orientation check passed on the true edge of the guarantee predicates')
     ctx.rule('POSTREPAIR', 'orientation normalisation + check (+ local ridge links) passed after a per-insertion repair')
     ctx.rule('CHECK', 'Inserted is reported only behind maybe_check_after_insertion; it validates unless the policy says no')
+    ctx.rule('IDENT', 'a vertex re-created on the insertion path (perturbation retry, canonicalisation) keeps the caller\'s UUID and data')
+    import idkeep
     for cfg in ctx.cfgs:
         prog = ctx.prog(cfg)
         lv = gate.Leaves(prog)
+        idkeep.check(ctx, cfg, prog, ctx.mod(cfg), 'IDENT',
+                     lambda o: o.rsplit('::', 1)[-1] in ('insert_transactional', 'canonicalize_vertex_for_insertion'), 2)
         for q in (SAFETY_NET, FALLBACK, VAI, VRTL, MAYBE_REPAIR, MAYBE_CHECK, NORMALIZE, ORIENT, RIDGE_LOCAL):
             ctx.anchor(cfg, q)
         if any(q not in prog.bodies for q in (SAFETY_NET, FALLBACK, VAI, VRTL, MAYBE_REPAIR, MAYBE_CHECK)):
